@@ -67,6 +67,7 @@ func loadKnown(path string) ([]KnownFinding, error) {
 }
 
 type nativeCase struct {
+	Dir    string                 `json:"-"`
 	ID     string                 `json:"id"`
 	Entry  string                 `json:"entry"`
 	Args   []int                  `json:"args"`
@@ -170,6 +171,12 @@ func cmdCheck(argv []string) int {
 		if tier == "thorough" {
 			rs.SolverMs = 120000
 		}
+		if rs.Timeout == 0 {
+			rs.Timeout = 8 * time.Minute
+			if tier == "thorough" {
+				rs.Timeout = 45 * time.Minute
+			}
+		}
 		res, err := prog.Run(rs)
 		if err != nil {
 			fmt.Println(err)
@@ -197,9 +204,22 @@ func cmdCheck(argv []string) int {
 			viol = append(viol, v)
 		}
 	}
+	dirOf := func(h string) string {
+		p := h
+		if i := strings.Index(p, "["); i >= 0 {
+			p = p[:i]
+		}
+		p = p[:strings.LastIndex(p, ".")]
+		return p[strings.LastIndex(p, "/")+1:]
+	}
 	entryOf := func(h string) (string, []int) {
 		// "pkg/path.Name[1 2]"
-		name := h[strings.LastIndex(h, ".")+1:]
+		name := h
+		if i := strings.Index(name, "["); i >= 0 {
+			name = h[strings.LastIndex(h[:i], ".")+1:]
+		} else {
+			name = h[strings.LastIndex(h, ".")+1:]
+		}
 		var args []int
 		if i := strings.Index(name, "["); i >= 0 {
 			for _, f := range strings.Fields(strings.Trim(name[i:], "[]")) {
@@ -217,7 +237,7 @@ func cmdCheck(argv []string) int {
 	sort.Strings(knownList)
 	for i, v := range viol {
 		e, a := entryOf(v.Harness)
-		cases = append(cases, nativeCase{ID: fmt.Sprintf("viol-%03d", i), Entry: e, Args: a, Inputs: v.Inputs, Known: knownList,
+		cases = append(cases, nativeCase{Dir: dirOf(v.Harness), ID: fmt.Sprintf("viol-%03d", i), Entry: e, Args: a, Inputs: v.Inputs, Known: knownList,
 			Props: []string{id}, Want: v.Label, Reps: 3000})
 	}
 	// known findings that reproduce symbolically
@@ -228,7 +248,7 @@ func cmdCheck(argv []string) int {
 			knownHits = append(knownHits, k)
 			e, a := entryOf(v.Harness)
 			// replay without the finding listed as known, so that the assertion fails natively
-			cases = append(cases, nativeCase{ID: "known-" + k, Entry: e, Args: a, Inputs: v.Inputs, Known: nil,
+			cases = append(cases, nativeCase{Dir: dirOf(v.Harness), ID: "known-" + k, Entry: e, Args: a, Inputs: v.Inputs, Known: nil,
 				Props: []string{id}, Want: v.Label, Reps: 3000})
 		}
 	}
@@ -269,7 +289,7 @@ func cmdCheck(argv []string) int {
 			if len(cres.Traces) > 1 {
 				reps = 300
 			}
-			cases = append(cases, nativeCase{ID: fmt.Sprintf("cosim-%03d", nCos), Entry: e, Args: a, Inputs: c.Inputs, Known: knownList,
+			cases = append(cases, nativeCase{Dir: dirOf(c.Harness), ID: fmt.Sprintf("cosim-%03d", nCos), Entry: e, Args: a, Inputs: c.Inputs, Known: knownList,
 				Props: []string{id}, Expect: dedupTraces(cres.Traces), Reps: reps})
 			nCos++
 		}
@@ -278,7 +298,24 @@ func cmdCheck(argv []string) int {
 	var confirmed []Violation
 	var replayFiles []string
 	if len(cases) > 0 {
-		nres, err := runNative(repo, spec.NativeDir, cases)
+		var nres []nativeResult
+		var err error
+		byDir := map[string][]nativeCase{}
+		var dirs []string
+		for _, c := range cases {
+			if _, ok := byDir[c.Dir]; !ok {
+				dirs = append(dirs, c.Dir)
+			}
+			byDir[c.Dir] = append(byDir[c.Dir], c)
+		}
+		for _, dir := range dirs {
+			r, e := runNative(repo, dir, byDir[dir])
+			if e != nil {
+				err = e
+				break
+			}
+			nres = append(nres, r...)
+		}
 		if err != nil {
 			inconclusive = append(inconclusive, "native replay failed: "+err.Error())
 		} else {
